@@ -1300,3 +1300,168 @@ def clustermap_split_direct(H):
     lower = pd.DataFrame(d)
     upper = pd.DataFrame(d * 2)
     return pp.clustermap_split(lower, upper, cbar_kws=H["dict_cbar"], figsize=(3, 3))
+
+
+# =============================================================================================
+# sibling templates: same shapes / lengths / keys as an earlier template but different content, so
+# that state keyed by a partial key (length, shape, id, first element ...) meets a colliding victim
+# =============================================================================================
+@heap
+def seqs_list_b():
+    return ["CASSLGQAYEQYF", "CASSLGQGYEQF", "CASRLAQAYEQYF", "CASSPGQAYEQYF", "CATSLGQAYEQYF", "CAWSVGTDTQYF",
+            "CAWSIGSDTQYF", "CSARDRGNTIYF", "CASSLGQAYEQF", "CASRLGQAYEQYF"]
+
+
+@heap
+def seqs_arr_b():
+    return np.array(["CAAA", "CADD", "CAAA", "CDKD", "CKAK", "CAAAK", "CAD", "CDDK"])
+
+
+@heap
+def counts_arr_b():
+    return np.array([2, 5, 3, 9, 1, 1, 4, 0, 2])
+
+
+@heap
+def df_stats_b():
+    return pd.DataFrame({
+        "group": ["g1", "g1", "g2", "g2", "g2", "g2", "g3", "g3", "g3", "g3"],
+        "a": ["x", "y", "y", "x", "z", "x", "z", "y", "y", "y"],
+        "b": ["p", "q", "p", "q", "q", "r", "r", "p", "r", "p"],
+        "n": [1, 2, 3, 4, 5, 6, 7, 8, 9, 10],
+    }, index=list(range(20, 30)))
+
+
+@op("kdtree", post=sorted_list)
+def kdtree_default_b(H):
+    return prs.kdtree(H["seqs_list_b"], max_edits=1)
+
+
+@op("kdtree", post=sorted_list, pool=True)
+def kdtree_ncpu3_b(H):
+    return prs.kdtree(H["seqs_list_b"], max_edits=2, n_cpu=3)
+
+
+@op("kdtree", post=sorted_list)
+def kdtree_k2_arr_b(H):
+    return prs.kdtree(H["seqs_arr_b"], max_edits=2)
+
+
+@op("symdel", post=sorted_list)
+def symdel_default_b(H):
+    return prs.symdel(H["seqs_list_b"], max_edits=2)
+
+
+@op("symdel", post=sorted_list)
+def symdel_seqs2_b(H):
+    return prs.symdel(H["seqs_list_b"], max_edits=1, seqs2=H["seqs_list2"])
+
+
+@op("hash_based", post=sorted_list)
+def hash_based_default_b(H):
+    return prs.hash_based(H["seqs_arr_b"], max_edits=1)
+
+
+@op("db", post=sorted_list)
+def symdeldb_lookup_b(H):
+    return H["symdel_db"].lookup(["CAAF", "CDDD", "CAKA"])
+
+
+@op("db", post=sorted_list)
+def lookupdb_lookup_b(H):
+    return H["lookup_db"].lookup(["CAAF", "CDDD", "CAKA"], max_edits=1)
+
+
+@op("pdist")
+def pdist_default_b(H):
+    return prs.pdist(H["seqs_list_b"])
+
+
+@op("pdist")
+def cdist_default_b(H):
+    return prs.cdist(H["seqs_list_b"], H["seqs_list2"])
+
+
+@op("pc")
+def pc_list_b(H):
+    return prs.pc(H["seqs_list_b"])
+
+
+@op("pc")
+def pc_n_arr_b(H):
+    return prs.pc_n(H["counts_arr_b"])
+
+
+@op("pc")
+def pc_joint_one_b(H):
+    return prs.pc_joint(H["df_stats_b"], H["list_on"])
+
+
+@op("pc")
+def pc_conditional_b(H):
+    return prs.pc_conditional(H["df_stats_b"], H["list_by"], "a")
+
+
+@op("pc")
+def varpc_n_arr_b(H):
+    return [prs.varpc_n(H["counts_arr_b"]), prs.stdpc_n(H["counts_arr_b"])]
+
+
+@op("entropy")
+def renyi_single_b(H):
+    return prs.renyi2_entropy(H["df_stats_b"], "a")
+
+
+@op("pcDelta")
+def pcDelta_list_b(H):
+    return prs.pcDelta(H["seqs_list_b"])
+
+
+@op("pcDelta")
+def pcDelta_two_b(H):
+    return prs.pcDelta(H["seqs_list_b"], H["seqs_list2"], bins=H["bins_arr"], normalize=False)
+
+
+@op("hclust")
+def hclust_default_b(H):
+    return prs.hierarchical_clustering(H["seqs_list_b"])
+
+
+@op("metric")
+def metric_lev_cdist_b(H):
+    return [H["metric_lev"].calc_cdist_matrix(H["seqs_list_b"], H["seqs_list2"]), H["metric_lev"].calc_pdist_vector(H["seqs_arr_b"])]
+
+
+@op("subsample", rand=True)
+def subsample_arr_b(H):
+    return prs.subsample(H["counts_arr_b"], 9)
+
+
+@op("powerlaw")
+def powerlaw_mle_exact_b(H):
+    return prs.powerlaw_mle_alpha(H["counts_arr_b"], cmin=1.0)
+
+
+@op("neighbors", post=sorted_list)
+def find_pairs_default_b(H):
+    return prs.find_neighbor_pairs(H["seqs_arr_b"])
+
+
+@op("neighbors")
+def neighbor_numbers_ref_b(H):
+    return prs.calculate_neighbor_numbers(H["seqs_arr_b"], reference=H["ref_set"])
+
+
+@op("util")
+def regex_consensus_b(H):
+    return [prs.seqs_to_regex(H["seqs_eqlen"][::-1][:4], align=False), prs.seqs_to_consensus(H["seqs_eqlen"][:3], align=False)]
+
+
+@op("colors", rand=True)
+def colors_hls_default_b(H):
+    return pp.labels_to_colors_hls(H["df_cluster"]["donor"])
+
+
+@op("clustermap", rand=True, slow=True)
+def clustermap_default_b(H):
+    return pp.similarity_clustermap(H["df_cluster"].iloc[::-1].reset_index(drop=True))
